@@ -154,9 +154,22 @@ def c20_metabolite(E):
     obj = networks.T[tid]["objectives"][-1]
     m.objective = {m.reactions.get_by_id(r): c for r, c in obj.items()}
     sol, v = _sym_solution(E, m)
+    from cobra import Metabolite
+    m.add_metabolites([Metabolite("LONE", compartment="c")])       # a metabolite that takes part in no reaction
     mets = [x.id for x in m.metabolites]
     mid = mets[E.choice("metabolite", len(mets), mets)]
     met = m.metabolites.get_by_id(mid)
+    if mid == "LONE":
+        # nothing produces or consumes it: both tables are empty and the summary still renders
+        try:
+            s0 = MetaboliteSummary(metabolite=met, model=m, solution=sol, fva=None)
+        except Exception as e:
+            E.prove(False, "summary-of-a-metabolite-without-reactions", exc=type(e).__name__, msg=str(e)[:200])
+            return
+        E.prove(len(s0.producing_flux) == 0 and len(s0.consuming_flux) == 0, "every-reaction-of-the-metabolite-exactly-once",
+                listed=list(s0.producing_flux["reaction"]) + list(s0.consuming_flux["reaction"]))
+        _render(E, s0)
+        return
     rxns = sorted(r.id for r in met.reactions)
     use_fva = E.flag("fva_frame")
     fva = None
